@@ -35,6 +35,8 @@ func runC04(p *Prog, r *Result) {
 	r.Rule("R04a", "modified-flag pairing in the simplifier: no change without the flag, no flag without a change", 25)
 	r.Rule("R04b", "node types constructed by the simplifier have a case in every printer type switch over an interface they implement", 2)
 	r.Rule("R04c", "a rewrite that discards a node tests or keeps every non-position, non-comment field of it", 12)
+	r.Rule("R04e", "every test operator whose right-hand side the interpreter evaluates as a pattern is protected from the simplifier's operand rewrites (listed, or normalised to a listed operator before the switch)", 3)
+	checkPatternOperatorAgreement(p, r, "R04e")
 	r.Rule("R04d", "string builders used across loop iterations in the simplifier are reset on every path back to the loop head", 0)
 
 	simpT := lookupType(pkg, "simplifier")
@@ -773,6 +775,10 @@ func reachableFromAvoidingBlock(g *FGraph, b *FBlock, i int, head *FBlock, stop 
 }
 
 var c04Controls = []Control{
+	{Name: "match-short-normalised-after-the-switch", Rule: "R04e", WantKey: "TsMatchShort protected", File: "syntax/simplify.go",
+		Mutate: ctlChain(
+			ctlReplaceAnywhere("\t\tif node.Op == TsMatchShort {\n\t\t\ts.modified = true\n\t\t\tnode.Op = TsMatch\n\t\t}\n\t\tswitch node.Op {", "\t\tswitch node.Op {"),
+			ctlReplaceAnywhere("\t\tnode.Y = s.removeNegateTest(node.Y)\n\tcase *UnaryTest:", "\t\tnode.Y = s.removeNegateTest(node.Y)\n\t\tif node.Op == TsMatchShort {\n\t\t\ts.modified = true\n\t\t\tnode.Op = TsMatch\n\t\t}\n\tcase *UnaryTest:"))},
 	{Name: "simple-predicate-short-cut", Rule: "R04c", WantKey: "inlineSimpleParams#drops pe", File: "syntax/nodes.go",
 		Mutate: ctlReplaceAnywhere("func (p *ParamExp) simple() bool {\n", "func (p *ParamExp) simple() bool {\n\tif p.Short {\n\t\treturn true\n\t}\n")},
 	{Name: "dollar-string-requoted", Rule: "R04c", WantKey: "simplifyWord#replaces dq", File: "syntax/simplify.go",
